@@ -11,13 +11,14 @@ mod extra;
 mod fixed;
 mod limb_checks;
 mod pairs;
+mod surface;
 
 use vmodel::*;
 
 pub fn spec() -> PropSpec {
     PropSpec {
         id: "C06",
-        rule: "cases: operand pairs (a, b) from the classes a == b / differ only in the lowest limb / only in the highest limb / only in the sign bit / equal prefix of high limbs + one deciding limb + low limbs ordered the other way round (one-limb types: equal top bits + one deciding bit + lower bits ordered the other way round) / extremes 0,1,MIN,MAX,-1 / related (a+-1, !a, -a, a>>1, 2a) / neighbours across a full borrow chain / zero- and one-like values with one interesting limb / independent edge shapes (K,P,L,R,T,U,Z); boxed pairs additionally with different precisions 1..=12 limbs: zero-padded equal values, equal common limbs with non-zero high limbs in the longer operand, zero-padded and differing inside the common limbs, extremes around the shorter precision's boundary, independent. Every case evaluates all comparison / equality / predicate / hash / select / swap / negate forms of the type for both operand orders and both choice values 0 and 1. non-trivial: a == b, or a != b with a common prefix of >= 1 equal most-significant limb, or (boxed) the precisions differ; for one-limb types (Limb, U64, I64), where no limb prefix can exist, a == b or a != b agreeing in the 8 most significant bits; for the MontyForm/MontyParams sub-checks: the two (modulus, value) operands are equal, share the modulus, or share the highest limb of the value. distinct by the operand limbs (+ moduli).",
+        rule: "cases: operand pairs (a, b) from the classes a == b / differ only in the lowest limb / only in the highest limb / only in the sign bit / equal prefix of high limbs + one deciding limb + low limbs ordered the other way round (one-limb types: equal top bits + one deciding bit + lower bits ordered the other way round) / extremes 0,1,MIN,MAX,-1 / related (a+-1, !a, -a, a>>1, 2a) / neighbours across a full borrow chain / zero- and one-like values with one interesting limb / independent edge shapes (K,P,L,R,T,U,Z); boxed pairs additionally with different precisions 1..=12 limbs: zero-padded equal values, equal common limbs with non-zero high limbs in the longer operand, zero-padded and differing inside the common limbs, extremes around the shorter precision's boundary, independent. Every case evaluates all comparison / equality / predicate / hash / select / swap / negate forms of the type for both operand orders and both choice values 0 and 1. non-trivial: a == b, or a != b with a common prefix of >= 1 equal most-significant limb, or (boxed) the precisions differ; for one-limb types (Limb, U64, I64), where no limb prefix can exist, a == b or a != b agreeing in the 8 most significant bits; for the MontyForm/MontyParams sub-checks: the two (modulus, value) operands are equal, share the modulus, or share the highest limb of the value. surface sub-checks (API-surface audit, /verif/audit/C.md): const-monty: two reduced residues of one compile-time modulus (equal / highest or lowest limb changed and reduced / independent), non-trivial by the pair rule on the residues; boxed-monty: (modulus, residue) pairs of equal precision 1..=5 limbs with the Monty rule; const-ct-option/wide-expect: (lo, hi, s < BITS, far >= 2*BITS, direction), non-trivial when (lo, hi) != 0; wrappers: the pair classes at 3 limbs (Limb = lowest limb, BoxedUint = k low limbs of a / all limbs of b) with the pair rule; widths: the uint / int / monty / reciprocal cases at 5, 7 / 3, 5 / 3 / 3 limbs with their own rules. distinct by the operand limbs (+ moduli).",
         assumptions: vec![
             "num-bigint ordering of BigUint/BigInt is correct (independent implementation)".into(),
             "bridging uses from_words / as_words only; NonZero::new / Odd::new / MontyForm::from_montgomery are used as plain constructors".into(),
@@ -59,5 +60,6 @@ fn subchecks(ctx: &Ctx) -> Vec<SubCheck> {
     v.push(SubCheck::new("boxed/hash/1..=12", 120_000, boxed_checks::boxed_hash_case).tape(120));
     v.push(SubCheck::new("boxed/select+negate/1..=12", 100_000, boxed_checks::boxed_select_case).tape(120));
     v.extend(extra::subchecks(ctx));
+    v.extend(surface::subchecks(ctx));
     v
 }
